@@ -171,7 +171,7 @@ class Worker:
             env = dict(self.env, VERIF_REPO_SRC=self.repo, VERIF_C12_SCRATCH=f'{self.dir}/c12scratch', VERIF_C12_TARGET=f'{self.target}/c12')
             rc, o = sh('/verif/overlay/c12/run.sh quick', env=env, timeout=1500)
             return rc, o
-        rc, o = sh(f'timeout --signal=KILL 600 {self.target}/release/{crate} {cid} --tier quick', env=self.env, timeout=700)
+        rc, o = sh(f'timeout --signal=KILL 240 {self.target}/release/{crate} {cid} --tier quick', env=self.env, timeout=300)
         if rc == 0 and cid in ('C03', 'C04', 'C05', 'C06', 'C07') and os.environ.get('AUTOMUT_THREADS', '1') == '1' and self.cur_file in ('penguin-mux/src/stream.rs', 'penguin-mux/src/lib.rs'):
             env = dict(self.env, VERIF_REPO_SRC=self.repo, VERIF_C12_SCRATCH=f'{self.dir}/c12scratch', VERIF_C12_TARGET=f'{self.target}/c12')
             extra = '--test verif_c07_alloc --property C07' if cid == 'C07' else f'--as {cid}'
